@@ -133,10 +133,12 @@ def run(ctx):
         cellname = vc[role]
         acq = {a.block for a in E.own_acc(disc) if a.cell[1] == cellname and a.kind == "LOCK_W"}
         ctx.floor("R1c", len(acq), 1, "write-lock acquisitions of LpgStore.%s in discard_uncommitted_versions" % cellname)
-        ok = must_pass(disc, 0, acq, set(disc.exits()))
+        # a "nothing to do" exit is fine if it has looked at this structure too (shared lock)
+        looked = acq | {a.block for a in E.own_acc(disc) if a.cell[1] == cellname and a.kind == "LOCK_R"}
+        ok = must_pass(disc, 0, looked, set(disc.exits()))
         ctx.ob("R1c", "discard#always-cleans-%s" % role, ok,
-               what="LpgStore::discard_uncommitted_versions can return without cleaning LpgStore.%s (an exit that does not pass its "
-                    "write lock): versions created by the rolled-back transaction in that structure stay visible" % cellname, where=disc.loc())
+               what="LpgStore::discard_uncommitted_versions can return without cleaning or even inspecting LpgStore.%s (an exit that "
+                    "passes none of its locks): versions created by the rolled-back transaction in that structure stay visible" % cellname, where=disc.loc())
     # the retain predicate keeps a version iff created_by != tx
     found = []
     for g in P.family(rvb):
